@@ -351,10 +351,35 @@ class SmallVector {
   void resize(size_type count, const T& value) {
     size_type sz = rawSize();
     if (count > sz) {
-      ensureCapacity(count);
-      T* ptr = data();
-      for (size_type i = sz; i < count; ++i) {
-        new (ptr + i) T(value);
+      if (count > capacity()) {
+        // Growing moves the existing elements out of the old storage and destroys them, and value
+        // may refer to one of them (v.resize(n, v[0]) is valid for std::vector): construct the new
+        // elements in the new storage before the old storage is vacated.
+        T* newData = allocateHeap(count);
+        size_type i = sz;
+#if defined(__cpp_exceptions)
+        try {
+          for (; i < count; ++i) {
+            new (newData + i) T(value);
+          }
+        } catch (...) {
+          for (size_type j = sz; j < i; ++j) {
+            newData[j].~T();
+          }
+          freeHeap(newData);
+          throw;
+        }
+#else
+        for (; i < count; ++i) {
+          new (newData + i) T(value);
+        }
+#endif // __cpp_exceptions
+        relocateToHeap(newData, count);
+      } else {
+        T* ptr = data();
+        for (size_type i = sz; i < count; ++i) {
+          new (ptr + i) T(value);
+        }
       }
       setSize(count);
     } else if (count < sz) {
